@@ -898,21 +898,58 @@ static void op_oracle(void)
     ev_end(&e); ev_free(&e);
 }
 
-/* is process pid, or any descendant of it, asleep in futex()?  In a single-threaded child of fork() nobody can ever wake it. */
-static int blocked_in_futex(pid_t pid, int depth)
+/* Is process pid, or any descendant of it, blocked for good?  Returns the number of the system call it sleeps in (202 = futex), or -1.
+ * "Blocked" = asleep in the same system call at two looks 300 ms apart without having used any CPU time in between; in a single-threaded
+ * child of fork() nobody can wake a futex waiter, and a process asleep like this after 10 s is not "slow". */
+static long proc_cpu_ticks(pid_t pid, char *state)
+{
+    char p[64], b[1024];
+    snprintf(p, sizeof p, "/proc/%d/stat", (int) pid);
+    int fd = open(p, O_RDONLY); if (fd < 0) return -1;
+    ssize_t n = read(fd, b, sizeof b - 1); close(fd); if (n <= 0) return -1;
+    b[n] = 0;
+    char *r = strrchr(b, ')'); if (!r) return -1;
+    unsigned long ut = 0, stt = 0; char stc = '?';
+    if (sscanf(r + 2, "%c %*d %*d %*d %*d %*d %*u %*u %*u %*u %*u %lu %lu", &stc, &ut, &stt) != 3) return -1;
+    if (state) *state = stc;
+    return (long) (ut + stt);
+}
+static long proc_syscall_nr(pid_t pid)
 {
     char p[64], b[256];
     snprintf(p, sizeof p, "/proc/%d/syscall", (int) pid);
-    int fd = open(p, O_RDONLY), hit = 0;
-    if (fd >= 0) { ssize_t n = read(fd, b, sizeof b - 1); close(fd); if (n > 0) { b[n] = 0; if (!strncmp(b, "202 ", 4)) hit = 1; } }
-    if (hit || depth > 3) return hit;
+    int fd = open(p, O_RDONLY); if (fd < 0) return -1;
+    ssize_t n = read(fd, b, sizeof b - 1); close(fd); if (n <= 0) return -1;
+    b[n] = 0;
+    if (b[0] < '0' || b[0] > '9') return -1;
+    return strtol(b, NULL, 10);
+}
+static long blocked_in_syscall(pid_t pid, int depth)
+{
+    char st1 = '?', st2 = '?';
+    long nr1 = proc_syscall_nr(pid), c1 = proc_cpu_ticks(pid, &st1);
+    if (nr1 >= 0 && nr1 != 61 /* wait4: look at the children instead */ && (st1 == 'S' || st1 == 'D')) {
+        usleep(300000);
+        long nr2 = proc_syscall_nr(pid), c2 = proc_cpu_ticks(pid, &st2);
+        if (nr2 == nr1 && c2 == c1 && (st2 == 'S' || st2 == 'D')) return nr1;
+    }
+    if (depth > 3) return -1;
+    char p[64], b[256];
     snprintf(p, sizeof p, "/proc/%d/task/%d/children", (int) pid, (int) pid);
-    fd = open(p, O_RDONLY);
+    int fd = open(p, O_RDONLY);
     if (fd >= 0) {
         ssize_t n = read(fd, b, sizeof b - 1); close(fd);
-        if (n > 0) { b[n] = 0; char *q = b; while (*q) { long c = strtol(q, &q, 10); if (c > 0 && blocked_in_futex((pid_t) c, depth + 1)) return 1; while (*q == ' ') q++; if (!c) break; } }
+        if (n > 0) { b[n] = 0; char *q = b; while (*q) { long c = strtol(q, &q, 10); if (c > 0) { long r = blocked_in_syscall((pid_t) c, depth + 1); if (r >= 0) return r; } while (*q == ' ') q++; if (!c) break; } }
     }
-    return 0;
+    return -1;
+}
+static const char *timeout_status(pid_t pid)
+{
+    static char buf[48];
+    long nr = blocked_in_syscall(pid, 0);
+    if (nr == 202) return "timeout-futex";
+    if (nr >= 0) { snprintf(buf, sizeof buf, "timeout-blocked:%ld", nr); return buf; }
+    return "timeout";
 }
 
 /* ------------------------------------------------------------------ threads (C09) */
@@ -1245,7 +1282,7 @@ static void run_ops(op_t *ops, int nops)
                     if (w == pid) { waited = 1; break; }
                     usleep(1000);
                 }
-                if (!waited) { status = blocked_in_futex(pid, 0) ? "timeout-futex" : "timeout"; kill(pid, SIGKILL); waitpid(pid, &st, 0); }
+                if (!waited) { status = timeout_status(pid); kill(pid, SIGKILL); waitpid(pid, &st, 0); }
                 else if (WIFEXITED(st) && WEXITSTATUS(st) == 77) status = "deadlock";
                 else if (!(WIFEXITED(st) && WEXITSTATUS(st) == 0)) status = "abnormal";
             }
@@ -1300,7 +1337,7 @@ static void run_ops(op_t *ops, int nops)
                     if (w == pid) { waited = 1; break; }
                     usleep(1000);
                 }
-                if (!waited) { status = blocked_in_futex(pid, 0) ? "timeout-futex" : "timeout"; kill(pid, SIGKILL); waitpid(pid, &st, 0); }
+                if (!waited) { status = timeout_status(pid); kill(pid, SIGKILL); waitpid(pid, &st, 0); }
                 else if (!(WIFEXITED(st) && WEXITSTATUS(st) == 0)) status = "abnormal";
             }
             int joined = 0;
